@@ -331,7 +331,9 @@ impl<V: ?Sized> MetricReporterBuilder<YouMustConfigureAMetricsDestination, V> {
     ) -> MetricReporterBuilder<NullEntryIoStream, V> {
         let (sink, handle) = sink;
         let shutdown_handle = ShutdownHandle::SyncHandle(Box::new(move || {
-            let _ = handle;
+            // `let _ = handle;` would not capture `handle` at all (closures only capture what they
+            // use), so it would be dropped right here in the builder instead of at shutdown
+            drop(handle);
         }));
         MetricReporterBuilder {
             metrics_stream: NullEntryIoStream::default(),
